@@ -9,6 +9,17 @@ import (
 
 var raceFrame = regexp.MustCompile(`(?m)^  (\S+)\(`)
 
+// RaceScope declares which race reports are violations of THIS property: a
+// report is in scope when a frame of either access stack contains one of the
+// patterns (e.g. "bfe_balance/"). Without a scope every race report is only
+// recorded in the evidence as incidental (counter race_out_of_scope): races
+// belong to the properties whose statement names them (C05, C15).
+func (r *Run) RaceScope(patterns ...string) {
+	r.mu.Lock()
+	r.raceScope = append(r.raceScope, patterns...)
+	r.mu.Unlock()
+}
+
 // collectRaces parses the race detector's log files (GORACE log_path) and
 // reports each distinct report (by the innermost bfe frame of the two stacks)
 // as a violation. Reports without any bfe frame are harness races and make the
@@ -67,6 +78,21 @@ func (r *Run) collectRaces() {
 				continue
 			}
 			seen[sig] = true
+			inScope := false
+			for _, pat := range r.raceScope {
+				if strings.Contains(acc, pat) {
+					inScope = true
+				}
+			}
+			if !inScope {
+				r.mu.Lock()
+				r.counters["race_out_of_scope"]++
+				if len(r.incidentalRaces) < 10 {
+					r.incidentalRaces = append(r.incidentalRaces, sig)
+				}
+				r.mu.Unlock()
+				continue
+			}
 			r.Violation(sig, "data race reported by the Go race detector", map[string]interface{}{"report": truncate(blk, 6000)})
 		}
 	}
